@@ -66,7 +66,8 @@ def enumWidthSigned (minV maxV : Int) : Nat × Bool :=
   if minV < 0 then
     if minV > -128 && maxV ≤ 127 then (probeWidth 7, true)
     else if minV ≥ Gen.gMinShort && maxV ≤ Gen.gMaxShort then (probeWidth 8, true)
-    else (probeWidth 9, true)
+    else if maxV ≤ Gen.gMaxInt then (probeWidth 9, true)
+    else (Gen.sizeofGint64, true)
   else
     if maxV ≤ 127 then (probeWidth 1, probeSigned 1)
     else if maxV ≤ 255 then (probeWidth 2, probeSigned 2)
@@ -303,8 +304,10 @@ def computeNode (env : List Node) (node : Node) : NodeResult :=
 
 /-! ### what girnode.c stores in the typelib, and what the accessors read back -/
 
-/-- `blob->struct_offset = field->offset` (guint16), `0xFFFF` when negative -/
-def blobOffset (off : Int) : Nat := if off ≥ 0 then (off % 65536).toNat else 65535
+/-- `if (field->offset >= 0 && field->offset < 0xFFFF) blob->struct_offset = field->offset;
+    else blob->struct_offset = 0xFFFF;` (guint16; 0xFFFF is the "unknown" marker).  The `% 65536` is
+    the conversion to guint16 of the assignment; C08_stored shows it never changes the value. -/
+def blobOffset (off : Int) : Nat := if off ≥ 0 && off < 65535 then (off % 65536).toNat else 65535
 
 /-- `blob->alignment = alignment` (a 6-bit field) -/
 def blobAlign (a : Int) : Nat := (a % 64).toNat
